@@ -3,7 +3,7 @@
    (first = interface id), a result is a line of ASCII codes.                  *)
 From Coq Require Import String.
 From MW Require Import Model.Base Model.F64 Model.Num Model.NumFmt Model.Datum Model.Lex Model.Highlight Model.Parse
-  Model.WireNum Model.WireStr Model.WireLv Model.WireMac Model.WireGc Model.WireVm Model.WireMisc.
+  Model.WireNum Model.WireNumFmt Model.WireStr Model.WireLv Model.WireMac Model.WireGc Model.WireVm Model.WireMisc.
 Open Scope N_scope.
 
 
@@ -63,9 +63,11 @@ Definition run_case (c : list N) : list N :=
   | 3 :: i :: t => show_out show_bool (highlight_check t i)
   | 4 :: t => show_out (show_parse_text t) (parse_text t)
   | 5 :: t => S_ "ALL" ++ parse_all (S (length t)) t []
+  | 6 :: _ :: t => show_out (show_parse_text t) (parse_text t)
   | id :: _ =>
       if id <? 10 then S_ "BADCASE"
-      else if id <? 30 then run_num c
+      else if id <? 20 then run_num c
+      else if id <? 30 then run_numfmt c
       else if id <? 40 then run_str c
       else if id <? 50 then run_lv c
       else if id <? 60 then run_mac c
